@@ -12,6 +12,16 @@ use pvmon::refmodel::space::{Space, V3};
 use pvmon::report::{bits64, fjson, fvec, par, parse_bits64, Ctx, Monitor, Report};
 use pvmon::json;
 
+/// relative size of the perturbation of the intermediate that the recorded Oklab-matrix finding explains: the mismatch
+/// itself is 4e-5; Okhsl / Okhsv / Okhwb divide the residue by a maximum chroma that vanishes towards white and black
+fn ok_eps(dst: Space) -> f64 {
+    if matches!(dst, Space::Okhsl | Space::Okhsv | Space::Okhwb) {
+        3e-3
+    } else {
+        5e-4
+    }
+}
+
 fn ok_family(s: Space) -> bool {
     matches!(s, Space::Oklab | Space::Oklch | Space::Okhsl | Space::Okhsv | Space::Okhwb)
 }
@@ -199,7 +209,7 @@ fn main() {
                         if !(d <= tol) {
                             let class = if direct.iter().chain(step.iter()).any(|c| !c.is_finite()) {
                                 "nonfinite"
-                            } else if (ok_family(a) || ok_family(b) || ok_family(mspace)) && d <= 1e-7 * b.scale() + judge::sensitivity(a, b, &x, judge::K * judge::U64, 5e-4) + judge::sensitivity(mspace, b, &mm, judge::K * judge::U64, 5e-4) {
+                            } else if (ok_family(a) || ok_family(b) || ok_family(mspace)) && d <= 1e-7 * b.scale() + judge::sensitivity(a, b, &x, judge::K * judge::U64, ok_eps(b)) + judge::sensitivity(mspace, b, &mm, judge::K * judge::U64, ok_eps(b)) {
                                 "oklab_xyz_matrix_white_mismatch"
                             } else if d > 1e3 * tol {
                                 "gross"
